@@ -362,3 +362,31 @@ pub fn c18_cert_signers<S: Src>(s: &mut S) {
     assert!(predicted >= signed && predicted - signed < 101,
         "certificate shape {}: predicted size {} vs {} bytes when signed by the {} required keys", sh, predicted, signed, 1 + n_cert_signers);
 }
+
+// ---------------------------------------------------------------- C14: big integer narrowing
+/// draws: negative?, three 64-bit limbs (little endian) of the magnitude
+pub fn bigint_narrowing<S: Src>(s: &mut S) {
+    let neg = s.u8() != 0;
+    let (l0, l1, l2) = (s.u64(), s.u64(), s.u64());
+    let mag: NB = NB::from(l0) + (NB::from(l1) << 64) + (NB::from(l2) << 128);
+    let x = if neg { -mag.clone() } else { mag.clone() };
+    let b = BigInt::from_str(&x.to_string()).unwrap();
+    let fits64 = mag.to_u64().is_some();
+    match b.as_u64() {
+        Some(v) => assert!(!x.is_negative_nb() && fits64 && NB::from(u64::from(v)) == x, "as_u64 returned a different number"),
+        None => assert!(x.is_negative_nb() || !fits64, "as_u64 refused a value that fits"),
+    }
+    match b.as_int() {
+        Some(i) => {
+            assert!(i.to_str() == x.to_string(), "as_int returned a different number");
+            assert!(fits64 || (neg && mag == (NB::from(u64::MAX) + 1)), "as_int returned an Int outside -2^64..2^64-1");
+            // and the Int behaves: its accessors and CBOR form are exact
+            if !neg { assert!(i.as_positive().map(u64::from) == mag.to_u64()); }
+            let back = Int::from_bytes(i.to_bytes()).unwrap();
+            assert!(back.to_str() == x.to_string(), "Int CBOR round trip changed the value");
+        }
+        None => assert!(!fits64, "as_int refused a value within range"),
+    }
+}
+trait NegNb { fn is_negative_nb(&self) -> bool; }
+impl NegNb for NB { fn is_negative_nb(&self) -> bool { self.sign() == num_bigint::Sign::Minus } }
